@@ -403,7 +403,7 @@ impl Metadata {
             source_dirs.push((examples_base.clone(), true));
         }
 
-        for (src_base, is_example) in source_dirs {
+        for (src_index, (src_base, is_example)) in source_dirs.into_iter().enumerate() {
             let src_files = if let Some(cf) = canonical_files.as_ref() {
                 // Only keep files that live under this source dir; other
                 // source dirs in `sources` will pick them up. Files under
@@ -447,9 +447,13 @@ impl Metadata {
                     Target::Directory { ref path } => {
                         out_base.join(path.join(src_relative.with_extension("sv")))
                     }
-                    Target::Bundle { .. } => out_base.join(
-                        PathBuf::from("target").join(src.with_extension("sv").file_name().unwrap()),
-                    ),
+                    // Staging path of a bundle member: keep the source
+                    // directory index and the relative path, so that equal
+                    // file names in different directories stay apart.
+                    Target::Bundle { .. } => out_base
+                        .join("target")
+                        .join(src_index.to_string())
+                        .join(src_relative.with_extension("sv")),
                 };
                 let map = match &self.build.sourcemap_target {
                     SourceMapTarget::Directory { path } => {
@@ -473,6 +477,28 @@ impl Metadata {
                     map,
                     example: is_example,
                 });
+            }
+        }
+
+        // Two sources must never share an output or a source map path (e.g.
+        // the same relative path below two `sources` directories with a
+        // directory target): the later one would silently overwrite the former.
+        {
+            let mut dsts: HashMap<&Path, &Path> = HashMap::new();
+            let mut maps: HashMap<&Path, &Path> = HashMap::new();
+            for x in ret.iter().filter(|x| !x.example) {
+                let first = dsts
+                    .insert(x.dst.as_path(), x.src.as_path())
+                    .or(maps.insert(x.map.as_path(), x.src.as_path()));
+                if let Some(first) = first
+                    && first != x.src.as_path()
+                {
+                    return Err(MetadataError::OutputPathCollision {
+                        first: first.to_path_buf(),
+                        second: x.src.clone(),
+                        dst: x.dst.clone(),
+                    });
+                }
             }
         }
 
